@@ -268,10 +268,26 @@ type lookupEnv struct {
 	model *Model
 	inst  string
 	st    *trie.SlimTrie
+	// survivor re-check: the property's own oracle is run again, on every
+	// stride-th key, against an instance that passed it earlier
+	survivor bool
+	stride   int
+}
+
+func (e *lookupEnv) step() int {
+	if e.stride > 1 {
+		return e.stride
+	}
+	return 1
 }
 
 func (e *lookupEnv) viol(clause string, q string, extra map[string]interface{}) {
 	d := e.lc.describe()
+	if e.survivor {
+		d["clause"] = clause
+		d["what"] = "an instance that satisfied this oracle before no longer does after other tries were built/loaded"
+		clause = "earlier-instance-changed"
+	}
 	d["opt"] = e.opt.String()
 	d["instance"] = e.inst
 	d["query_hex"] = hexq(q)
@@ -302,7 +318,8 @@ func (e *lookupEnv) oracleC01() {
 	cur := ""
 	ids := make(map[int32]int, len(m.RetKeys))
 	pv, stack := try(func() {
-		for r, k := range m.RetKeys {
+		for r := 0; r < len(m.RetKeys); r += e.step() {
+			k := m.RetKeys[r]
 			cur = k
 			v, found := st.Get(k)
 			id := st.GetID(k)
@@ -338,7 +355,8 @@ func (e *lookupEnv) oracleC02() {
 	cur := ""
 	dropped := 0
 	pv, stack := try(func() {
-		for i, k := range m.Keys {
+		for i := 0; i < len(m.Keys); i += e.step() {
+			k := m.Keys[i]
 			cur = k
 			v, found := st.RangeGet(k)
 			var want interface{}
@@ -460,7 +478,8 @@ func (e *lookupEnv) oracleC09() {
 	}
 	cur := ""
 	pv, stack := try(func() {
-		for r, k := range m.RetKeys {
+		for r := 0; r < len(m.RetKeys); r += e.step() {
+			k := m.RetKeys[r]
 			cur = k
 			lv, ev, rv := st.Search(k)
 			var wl, wr interface{}
@@ -724,29 +743,43 @@ func (e *lookupEnv) oracleC18() *trie.Stat {
 // survivorCheck re-reads an instance that was built and checked earlier, after
 // other tries have been built and loaded since: a built trie must not share
 // mutable memory with the builder or with any other instance.
-func (e *lookupEnv) survivorCheck() {
+func (e *lookupEnv) survivorCheck(qs []string) {
 	m := e.model
-	st := e.st
-	cur := ""
-	step := 1
-	if len(m.RetKeys) > 400 {
-		step = len(m.RetKeys) / 400
+	e.survivor = true
+	e.stride = 1
+	if len(m.Keys) > 400 {
+		e.stride = len(m.Keys) / 400
 	}
-	pv, stack := try(func() {
-		for r := 0; r < len(m.RetKeys); r += step {
-			k := m.RetKeys[r]
-			cur = k
-			v, found := st.Get(k)
-			rv, rfound := st.RangeGet(k)
-			if !found || !rfound || !sameVal(v, m.ValAt(r)) || !sameVal(rv, m.ValAt(r)) {
-				e.viol("earlier-instance-changed", k, map[string]interface{}{"what": "an instance that answered correctly before no longer does after other tries were built/loaded",
-					"expected": show(m.ValAt(r)), "Get": []interface{}{show(v), found}, "RangeGet": []interface{}{show(rv), rfound}})
-				return
-			}
+	sq := qs
+	if len(sq) > 400 {
+		sq = make([]string, 0, 401)
+		for i := 0; i < len(qs); i += len(qs) / 400 {
+			sq = append(sq, qs[i])
 		}
-	})
-	if pv != nil {
-		e.viol("earlier-instance-changed", cur, map[string]interface{}{"panic": fmt.Sprint(pv), "stack": stack})
+	}
+	// only what the property itself promises is asked again (a survivor that
+	// breaks another property is that property's finding)
+	switch e.prop {
+	case "C01":
+		e.oracleC01()
+	case "C02":
+		e.oracleC02()
+	case "C03":
+		e.oracleC03(sq)
+	case "C09":
+		e.oracleC09()
+	case "C10":
+		e.oracleC10(sq, false, true)
+	case "C14":
+		e.oracleC14(sq)
+	case "C18":
+		e.oracleC18()
+	case "C06":
+		e.oracleC01()
+		e.oracleC02()
+		e.oracleC09()
+	default:
+		return
 	}
 	e.ctx.Count("survivor_rechecks", 1)
 }
@@ -915,7 +948,7 @@ func runLookupCase(ctx *Ctx, prop string, lc *LCase, caseIdx int) {
 		// the instance of the previous option set is still alive: read it again
 		// now that another trie of the same size has been built and loaded
 		if prevEnv != nil && prop != "C13" {
-			prevEnv.survivorCheck()
+			prevEnv.survivorCheck(qs)
 		}
 		violBefore := ctx.nviol
 		var stat0 *trie.Stat
